@@ -11,7 +11,7 @@ from mc import gen
 
 def two_chrom_graph(blocks1=("snp", "link", "insertion"), blocks2=("deletion",), decl="alt"):
     c1 = gen.Chain(list(blocks1), chrom="chr1", id_base=0, hap="hA#1#c", decl=decl, scaffold_len=12)
-    c2 = gen.Chain(list(blocks2), chrom="chr2", id_base=40, hap="hB#1#c", decl=decl, so_base=0)
+    c2 = gen.Chain(list(blocks2), chrom="chr2", id_base=40, hap="hB#1#c", decl=decl, so_base=0, id_style="odd")
     return gen.merge_graphs([c1.g, c2.g]), c1, c2
 
 
@@ -38,6 +38,9 @@ def tag_by_model(g, chains, with_untagged=True, bo_start=0):
         last_scaffold = [x for k, x in first_chain.order if k == "s"][-1]
         out.add_seg("u1", "ACGTAC", [("LN", "i", "6"), ("SN", "Z", "hU#1#c"), ("SO", "i", "500"), ("SR", "i", "3"), ("BO", "i", "-1"), ("NO", "i", "-1")])
         out.add_link(last_scaffold, "+", "u1", "+", "0M")
+        out.add_link("u1", "+", [x for k, x in first_chain.order if k == "s"][0], "+", "0M")  # a walk may also START in the untagged node
+        # a reference (rank-0) contig that was left out of the chromosome order: its node is untagged
+        out.add_seg("ebv1", "ACGTACGTAC", [("LN", "i", "10"), ("SN", "Z", "chrEBV"), ("SO", "i", "0"), ("SR", "i", "0"), ("BO", "i", "-1"), ("NO", "i", "-1")])
         # a node order beyond 16 bits (a bubble with very many alleles), in the first bubble of chr1
         first_bubble = [x for k, x in first_chain.order if k == "b" and len(x) >= 2]
         if first_bubble:
@@ -135,9 +138,9 @@ def multi_chrom_graph(nchrom, decl="alt"):
     specs = [
         (["snp", "inversion", "insertion"], "chr1", 0, "hA#1#c", 5),
         (["deletion"], "chr2", 40, "hB#1#c", 2),
-        (["triallelic", "link"], "chr3", 70, "hC#1#c", 2),
+        (["triallelic", "link"], "HLA-A*01:01", 70, "hC#1#c", 2),  # a reference contig name with colons (GRCh38 alt contigs)
     ][:nchrom]
-    chains = [gen.Chain(b, chrom=c, id_base=i, hap=h, decl=decl, scaffold_len=sl) for b, c, i, h, sl in specs]
+    chains = [gen.Chain(b, chrom=c, id_base=i, hap=h, decl=decl, scaffold_len=sl, id_style=("odd" if c == "chr2" else "s")) for b, c, i, h, sl in specs]
     return gen.merge_graphs([c.g for c in chains]), chains
 
 
